@@ -180,6 +180,12 @@ func (v *vdrRun) monitors() {
 	for _, n := range append([]string(nil), namedAbs...) {
 		if r, err := filepath.EvalSymlinks(n); err == nil && r != n {
 			namedAbs = append(namedAbs, r)
+			if vdrAliasFrom != "" && strings.HasPrefix(r, vdrAliasFrom+"/") {
+				r = vdrAliasTo + r[len(vdrAliasFrom):]
+			}
+			if strings.HasPrefix(r, psdir+"/") && len(named) < 10000 {
+				named = append(named, v.rel(r))
+			}
 		}
 	}
 	if len(named) > nTop {
